@@ -24,7 +24,7 @@ try:
         return p.returncode, (p.stdout + p.stderr)[-600:]
     # demos may refer to their own worktree path: rewrite it
     d = open(os.path.join(src, "demo.py")).read()
-    d2 = re.sub(r"/tmp/wt2?/C\d\d", wt, d)
+    d2 = re.sub(r"/tmp/wt\d?/C\d\d", wt, d)
     os.makedirs(os.path.join(wt, "seed"), exist_ok=True)          # same relative location as in the agent's worktree
     demo_path = os.path.join(wt, "seed", "demo.py")
     open(demo_path, "w").write(d2)
